@@ -53,9 +53,30 @@ Theorem C01_importance_weighs_every_draw_partial : forall {X} (L Pi : X -> XR) (
   /\ Gen.Calls.importance_sample_log_w L Pi x lq n0 = vmap2 xsub (vmap2 xadd (map L x) (map Pi x)) lq.
 Proof. intros. split; reflexivity. Qed.
 
+(* the initial population of the SMC samplers is drawn from the proposal RESTRICTED to the prior support (out-of-support draws are
+   rejected and redrawn) but weighted with the unrestricted proposal density: the mean weight then estimates Z / q(S), not Z —
+   finding F55 (known_findings.json): exact value, and a machine-checked instance where it differs from the evidence *)
+Theorem C01_truncated_initial_population_partial : forall {A} (q : list (A * R)) (target w : A -> R) (inS : A -> bool),
+  let qS := filter (fun xp => inS (fst xp)) q in
+  let P := vsum (map snd qS) in
+  Forall (fun xp => snd xp <> 0) q -> P <> 0 ->
+  (forall xp, In xp q -> w (fst xp) = target (fst xp) / snd xp) ->
+  expect (map (fun xp => (fst xp, snd xp / P)) qS) w = vsum (map (fun xp => target (fst xp)) qS) / P.
+Proof. exact @truncated_population_weight_mean. Qed.
+
+Theorem C01_smc_evidence_unbiased_refuted :
+  exists (q : list (nat * R)) (target w : nat -> R) (inS : nat -> bool),
+    vsum (map snd q) = 1 /\ (forall xp, In xp q -> w (fst xp) = target (fst xp) / snd xp)
+    /\ (forall xp, In xp q -> inS (fst xp) = false -> target (fst xp) = 0)
+    /\ let qS := filter (fun xp => inS (fst xp)) q in
+       expect (map (fun xp => (fst xp, snd xp / vsum (map snd qS))) qS) w <> vsum (map (fun xp => target (fst xp)) q).
+Proof. exact truncated_population_biased. Qed.
+
 Print Assumptions C01_evidence_unbiased_partial.
 Print Assumptions C01_importance_weighs_every_draw_partial.
 Print Assumptions C01_incremental_weight_mean_partial.
 Print Assumptions C01_ladder_targets_evidence_partial.
 Print Assumptions C01_tempered_path_telescopes_partial.
 Print Assumptions C01_precond_same_target_partial.
+Print Assumptions C01_truncated_initial_population_partial.
+Print Assumptions C01_smc_evidence_unbiased_refuted.
